@@ -1,6 +1,7 @@
 package c20
 
 import (
+	"bytes"
 	"context"
 	"crypto/tls"
 	"fmt"
@@ -268,6 +269,31 @@ func runCase(c *Case) (nontrivial int, err error) {
 	srv.Stop(inst)
 	stopped = true
 
+	if c.H2 {
+		// An HTTP/2 handler runs on its own goroutine: a HEAD request's client has its answer (and has closed the
+		// connection) while the handler may still be writing the body that the server discards, and Stop does not
+		// wait for a handler whose connection is gone.  Its log line is written when it returns: give those lines
+		// up to two seconds to arrive (missing lines are still a violation after that).
+		expected := 0
+		for _, l := range c.Logs {
+			for _, r := range c.Reqs {
+				if covered(l, cleanReqPath(r.Path)) {
+					expected++
+				}
+			}
+		}
+		for try := 0; try < 40; try++ {
+			have := 0
+			for li := range c.Logs {
+				b, _ := os.ReadFile(filepath.Join(dir, fmt.Sprintf("log%d.txt", li)))
+				have += bytes.Count(b, []byte("\n"))
+			}
+			if have >= expected {
+				break
+			}
+			time.Sleep(50 * time.Millisecond)
+		}
+	}
 	for li, l := range c.Logs {
 		b, _ := os.ReadFile(filepath.Join(dir, fmt.Sprintf("log%d.txt", li)))
 		lines := map[string][]string{}
